@@ -89,6 +89,21 @@ def std_unwrap(o):
     return o
 
 
+def full_unwrap(o):
+    """std_unwrap that also follows string-valued aliases (body evaluated in the alias's own module, stdlib only)."""
+    import sys
+    for _ in range(10):
+        o = std_unwrap(o)
+        if isinstance(o, typing.TypeAliasType) and isinstance(o.__value__, str):
+            try:
+                o = eval(o.__value__, dict(vars(sys.modules[o.__module__])))
+            except Exception:
+                return o
+        else:
+            return o
+    return o
+
+
 def observe(root, env, variants=()):
     from typelib import graph
     from typelib.py import refs
@@ -118,7 +133,7 @@ def observe(root, env, variants=()):
         out = []
         for n in seq_:
             t, u = n.type, n.unwrapped
-            den = "-"
+            den = denu = uden = "-"
             if n.cyclic or isinstance(t, typing.ForwardRef) or isinstance(u, typing.ForwardRef):
                 try:
                     tgt = t if not isinstance(t, typing.ForwardRef) else refs.evaluate(t)
@@ -127,6 +142,10 @@ def observe(root, env, variants=()):
                     den = note_members(std_unwrap(tgt)) if not n.cyclic else ids.id(tgt)
                     if n.cyclic:
                         note_members(tgt)
+                        # what the deferred node stands for, unwrapped with typing only, and what its own
+                        # `unwrapped` attribute evaluates to
+                        denu = note_members(full_unwrap(tgt))
+                        uden = ids.id(refs.evaluate(u) if isinstance(u, typing.ForwardRef) else u)
                 except Exception:
                     den = "unresolvable"
             if isinstance(t, typing.TypeAliasType) and isinstance(t.__value__, str) and ids.id(t) not in ev["salias"]:
@@ -135,7 +154,7 @@ def observe(root, env, variants=()):
             out.append({"t": ids.id(t), "u": note_members(u) if not isinstance(u, typing.ForwardRef) else ids.id(u),
                         "su": note_members(su) if not isinstance(su, (typing.ForwardRef, typing.TypeAliasType)) else ids.id(su),
                         "var": n.var or "", "cyc": bool(n.cyclic), "ref": isinstance(t, typing.ForwardRef),
-                        "uref": isinstance(u, typing.ForwardRef), "den": den})
+                        "uref": isinstance(u, typing.ForwardRef), "den": den, "denu": denu, "uden": uden})
         return out
     ev["nodes"] = proj(seq)
     body = [(n["t"], n["u"], n["var"], n["cyc"]) for n in ev["nodes"][:-1]]
